@@ -700,8 +700,9 @@ def d8_conditions(chk, repo):
             if not par or not isinstance(par[0], ast.If) or par[1] != "body":
                 continue
             t = v.ev._not(v.ev.term(par[0].test, at=par[0]))
-            c = decode_call(v.ctx, t)
-            ok = bool(c and c[0] == "isinstance" and c[1] and is_sym(v.ctx, c[1][0], f"param:{pname}"))
+            from ..lib import type_test
+            c = type_test(v, t)
+            ok = bool(c and is_sym(v.ctx, c[0], f"param:{pname}"))
             chk.ob(f"{q}::typeerror-for-unsupported-only", ok, "C03.D8",
                    f"TypeError is raised under `{v.src(par[0].test)}`; it must be the negation of a type test of the operand "
                    "(otherwise supported constant vectors are refused and unsupported objects reach numpy)", v.f, par[0])
@@ -853,13 +854,14 @@ def d8_conditions(chk, repo):
 
 def _isinstance_polarity(chk, v, q, st, cond, what):
     """an operand that fails a type test is refused / unequal; one that passes it must not be"""
-    d_pos = decode_call(v.ctx, cond)
-    d_neg = decode_call(v.ctx, v.ev._not(cond))
-    if d_pos and d_pos[0] == "isinstance":
-        chk.ob(f"{q}::type-test-polarity@{v.show(d_pos[1][0])[:40]}", False, "C03.D8",
+    from ..lib import type_test
+    d_pos = type_test(v, cond)
+    d_neg = type_test(v, v.ev._not(cond))
+    if d_pos:
+        chk.ob(f"{q}::type-test-polarity@{v.show(d_pos[0])[:40]}", False, "C03.D8",
                f"`{v.src(st.test)}`: an object that HAS one of the accepted types {what}", v.f, st)
-    elif d_neg and d_neg[0] == "isinstance":
-        chk.ob(f"{q}::type-test-polarity@{v.show(d_neg[1][0])[:40]}", True, "C03.D8", "", v.f, st)
+    elif d_neg:
+        chk.ob(f"{q}::type-test-polarity@{v.show(d_neg[0])[:40]}", True, "C03.D8", "", v.f, st)
 
 
 def _none_or_default_conds(v):
@@ -894,10 +896,11 @@ def d8_ufunc(chk, repo):
     for st, c in conds:
         shown.append(v.show(c))
         nt = v.ev._not(c)
-        d = decode_call(v.ctx, nt)
-        if d and d[0] == "isinstance" and len(d[1]) == 2:
-            h0 = v.ctx.head_of(d[1][0])
-            if h0 and h0[0] == "iter" and is_sym(v.ctx, v.ctx.args_of(d[1][0])[0], "param:inputs"):
+        from ..lib import type_test
+        d = type_test(v, nt)
+        if d:
+            h0 = v.ctx.head_of(d[0])
+            if h0 and h0[0] == "iter" and is_sym(v.ctx, v.ctx.args_of(d[0])[0], "param:inputs"):
                 hit = True
     chk.ob("field.Field.__array_ufunc__::input-type-filter", hit, "C03.D8",
            f"inputs must be refused exactly when they are NOT of a supported type; raising conditions: {shown[:4]}", v.f)
